@@ -227,7 +227,7 @@ EmitTick == last = "second" =>
 \* ------------------------------- configuration restrictions (cfg files only)
 Within3  == TLCGet("level") <= 3
 Within8  == TLCGet("level") <= 8
-Within12 == TLCGet("level") <= 12
+Within10 == TLCGet("level") <= 10
 
 \* named constant values (cfg syntax has no tuples)
 NewYears == {<<yy, 1, 1>> : yy \in FirstYear..LastYear}
@@ -244,5 +244,5 @@ SodsQuick     == {0, 57, 3597, 43197, 86337, 86397}
 \* C11: the midnights inside the Earth-orientation table shipped with the simulator
 DatesEop      == {c \in EndsOf(2014..2021) : c[3] # 1}
 LastSecond    == {86399}
-SodsThorough  == {0, 56, 3596, 43196, 46796, 86336, 86396}
+SodsThorough  == {0, 56, 3596, 43196, 86336, 86396}
 =============================================================================
